@@ -21,6 +21,7 @@ import (
 	"fmt"
 	"io"
 	"io/fs"
+	"math"
 	"net/url"
 	"os"
 	"strconv"
@@ -87,6 +88,19 @@ var (
 	errInvalidCopySourceRange = s3err.GetAPIError(s3err.ErrInvalidCopySourceRange)
 )
 
+// isDigits reports whether s is a non-empty run of decimal digits
+func isDigits(s string) bool {
+	if s == "" {
+		return false
+	}
+	for i := 0; i < len(s); i++ {
+		if s[i] < '0' || s[i] > '9' {
+			return false
+		}
+	}
+	return true
+}
+
 // ParseGetObjectRange parses input range header and returns startoffset, length, isValid
 // and error. If no endoffset specified, then length is set to the object size
 // for invalid inputs, it returns no error, but isValid=false
@@ -111,9 +125,28 @@ func ParseGetObjectRange(size int64, acceptRange string) (int64, int64, bool, er
 		return 0, size, false, nil
 	}
 
+	// positions are digits only (strconv.ParseInt would take a sign)
+	if !isDigits(bRange[0]) || (bRange[1] != "" && !isDigits(bRange[1])) {
+		return 0, size, false, nil
+	}
+
 	startOffset, err := strconv.ParseInt(bRange[0], 10, 64)
 	if err != nil {
 		return 0, size, false, nil
+	}
+
+	// a malformed range is ignored whatever the object's size: look at
+	// the last position before the first one is held against the size
+	endOffset := int64(-1)
+	if bRange[1] != "" {
+		endOffset, err = strconv.ParseInt(bRange[1], 10, 64)
+		if err != nil {
+			// digits that do not fit: a position beyond any object's end
+			endOffset = math.MaxInt64
+		}
+		if endOffset < startOffset {
+			return 0, size, false, nil
+		}
 	}
 
 	if startOffset >= size {
@@ -122,15 +155,6 @@ func ParseGetObjectRange(size int64, acceptRange string) (int64, int64, bool, er
 
 	if bRange[1] == "" {
 		return startOffset, size - startOffset, true, nil
-	}
-
-	endOffset, err := strconv.ParseInt(bRange[1], 10, 64)
-	if err != nil {
-		return 0, size, false, nil
-	}
-
-	if endOffset < startOffset {
-		return 0, size, false, nil
 	}
 
 	if endOffset >= size {
